@@ -356,24 +356,31 @@ func vpC31Truncated(src, dst *QuicClient, n, k int, seed uint64) error {
 	header := []byte{TransportMessageVersion, 0, 0, 0, 0, 0}
 	binary.BigEndian.PutUint32(header[2:], uint32(n))
 	body := vpC31Fill(seed, n)[:k]
-	werr, trouble := vpC31Await("truncated frame write", func() error {
+	// the writer runs beside the receiver: a large body only drains while
+	// somebody reads it (stream flow control)
+	wch := make(chan error, 1)
+	go func() {
 		if err := src.stream.SetWriteDeadline(time.Now().Add(vpC31Guard)); err != nil {
-			return err
+			wch <- err
+			return
 		}
 		if _, err := src.stream.Write(append(header, body...)); err != nil {
-			return err
+			wch <- err
+			return
 		}
-		return src.stream.Close()
-	})
-	if trouble != nil {
-		return trouble
-	}
-	if werr != nil {
-		return vpC31Troublef("truncated frame write: %v", werr)
-	}
+		wch <- src.stream.Close()
+	}()
 	r, trouble := vpC31Recv(dst, TransportMessageMaxSize)
 	if trouble != nil {
 		return trouble
+	}
+	select {
+	case werr := <-wch:
+		if werr != nil {
+			return vpC31Troublef("truncated frame write: %v", werr)
+		}
+	case <-time.After(vpC31Guard):
+		return vpC31Troublef("truncated frame write did not return")
 	}
 	if r.err == nil {
 		got := -1
